@@ -1,1 +1,485 @@
-/-! C06 — property theorems (placeholder until the model exists). -/
+import EupsModel.Lemmas.CacheInv
+import EupsModel.Lemmas.DbFile
+import EupsModel.Lemmas.OnePlace
+/-! C06 — the database reflects exactly the history of declare / undeclare / tag operations.
+Property theorems only; the model is `Model/Db.lean` (commands) under `Model/Cache.lean` (histories of
+processes: every command reads through the product cache it loads), helper lemmas in `Lemmas/`.
+
+A *history* is any list of `WCmd`: commands of any user and flavor, each optionally killed right after its
+k-th `Database` mutation, and cache-file deletions.  `runHistory (World.init nst dirs tfs) h` is the state after
+it; `.db` is what a fresh reader of the files sees. -/
+namespace EupsModel.C06
+open EupsModel.Db EupsModel.Cache EupsModel.DbFile
+
+/-- the invariant of the database content holds after every history (crashes and cache deletions included;
+also for the pinned write-through, `fixed = false`) -/
+theorem dbInv_history (fixed : Bool) (nst : Nat) (dirs : List DirEnt) (tfs : List TFile) (h : List WCmd) :
+    DbInv (h.foldl (fun w c => (stepG fixed w c).w) (World.init nst dirs tfs)).db := by
+  suffices ∀ w : World, DbInv w.db → DbInv (h.foldl (fun w c => (stepG fixed w c).w) w).db from
+    this _ dbInv_empty
+  induction h with
+  | nil => intro w hw; exact hw
+  | cons c cs ih => intro w hw; exact ih _ (step_preserves DbInv (fun _ e hc => hc.apply e) fixed w c hw)
+
+/-- After any history no tag points at an undeclared version: every tag record of a stack names a
+(name, version, flavor) that the same stack declares. -/
+theorem C06_no_dangling_tag (nst : Nat) (dirs : List DirEnt) (tfs : List TFile) (h : List WCmd) :
+    ∀ r ∈ (runHistory (World.init nst dirs tfs) h).db.tags,
+      ∃ d ∈ (runHistory (World.init nst dirs tfs) h).db.decls,
+        d.stack = r.stack ∧ d.name = r.name ∧ d.ver = r.ver ∧ d.flav = r.flav := by
+  intro r hr
+  have := (dbInv_history true nst dirs tfs h).nd r hr
+  rw [Spec.hasDecl_iff] at this
+  obtain ⟨d, hd, hk⟩ := this
+  exact ⟨d, hd, Decl.hasKey_iff.mp hk⟩
+
+/-- After any history, within a stack a tag names at most one version per product and flavor, and a
+(name, version, flavor) is declared at most once (one directory, one table). -/
+theorem C06_tag_unique_in_stack (nst : Nat) (dirs : List DirEnt) (tfs : List TFile) (h : List WCmd) :
+    (∀ r ∈ (runHistory (World.init nst dirs tfs) h).db.tags, ∀ q ∈ (runHistory (World.init nst dirs tfs) h).db.tags,
+        r.stack = q.stack → r.tag = q.tag → r.name = q.name → r.flav = q.flav → r = q) ∧
+    (∀ d ∈ (runHistory (World.init nst dirs tfs) h).db.decls, ∀ e ∈ (runHistory (World.init nst dirs tfs) h).db.decls,
+        d.stack = e.stack → d.name = e.name → d.ver = e.ver → d.flav = e.flav → d = e) := by
+  have ku := (dbInv_history true nst dirs tfs h).ku
+  exact ⟨fun r hr q hq h1 h2 h3 h4 => ku.tag r hr q hq (TagRec.sameKey_iff.mpr ⟨h1, h2, h3, h4⟩),
+         fun d hd e he h1 h2 h3 h4 => ku.decl d hd e he (Decl.sameKey_iff.mpr ⟨h1, h2, h3, h4⟩)⟩
+
+/-- Frame.  A command on (name, version, flavor, tag) — run from any state, by any user, killed anywhere or
+not — leaves every declaration of another product, flavor or version as it was, in every stack, other flavors
+in the same version file included (`Cmd.fpVer`: `declare` touches its version only; `undeclare` the version
+given, or any version of the product when none is given; the tag commands none), and every tag record of
+another product or flavor, and those of the same product and flavor that neither carry the command's tag
+(`Cmd.fpTag`: the tag given; `current` for a `declare` without tag) nor sit on a version the command may
+change. -/
+theorem C06_frame (w : World) (u : User) (c : Cmd) (crash : Option Nat) :
+    (∀ x : Decl, ¬ (x.name = c.name ∧ x.flav = c.self ∧ c.fpVer x.ver) →
+        (x ∈ (step w (.run u c crash)).db.decls ↔ x ∈ w.db.decls)) ∧
+    (∀ r : TagRec, ¬ (r.name = c.name ∧ r.flav = c.self ∧ (c.fpTag r.tag ∨ c.fpVer r.ver)) →
+        (r ∈ (step w (.run u c crash)).db.tags ↔ r ∈ w.db.tags)) := by
+  obtain ⟨m, dirs, ex, es, hs, he⟩ := step_db true w u c crash
+  have hok : ∀ e ∈ es, Within c.name c.self c.fpVer c.fpTag e := by
+    intro e hes
+    exact run_trOK w.nst c ⟨w.db, m, dirs, [], ex, w.tfiles⟩ (by intro e h; simp at h) e (hs.subset hes)
+  unfold step
+  rw [he]
+  clear he hs
+  generalize w.db = d
+  constructor
+  · intro x hx
+    induction es generalizing d with
+    | nil => exact Iff.rfl
+    | cons e es ih =>
+      have hfalse : e.touchesDecl x = false := by
+        cases ht : e.touchesDecl x with
+        | false => rfl
+        | true => exact absurd ((hok e (by simp)).touchesDecl ht) hx
+      simp only [List.foldl_cons]
+      exact (ih (fun e' h' => hok e' (by simp [h'])) _).trans (applyDb_frame_decl e d x hfalse)
+  · intro r hr
+    induction es generalizing d with
+    | nil => exact Iff.rfl
+    | cons e es ih =>
+      have hfalse : e.touchesTag r = false := by
+        cases ht : e.touchesTag r with
+        | false => rfl
+        | true => exact absurd ((hok e (by simp)).touchesTag ht) hr
+      simp only [List.foldl_cons]
+      exact (ih (fun e' h' => hok e' (by simp [h'])) _).trans (applyDb_frame_tag e d r hfalse)
+
+/-- deleting a cache file changes nothing in the database -/
+theorem C06_frame_rmCache (w : World) (u : User) (s : Nat) (f : Flav) : (step w (.rmCache u s f)).db = w.db := rfl
+
+/-- **A refused command changes nothing.**  Whenever a command ends with `EupsException` — a conflicting
+redeclaration without force, a directory or table file that is not there, several versions to choose from —
+the database, the modification time of every record and the installation directories are exactly what they
+were, from every state, for every user, killed or not. -/
+theorem C06_refused_redeclare_is_noop (w : World) (u : User) (c : Cmd) (crash : Option Nat)
+    (h : (stepG true w (.run u c crash)).out = .refused) :
+    (step w (.run u c crash)).db = w.db ∧ (step w (.run u c crash)).dirs = w.dirs ∧
+      (step w (.run u c crash)).touch = w.touch := by
+  apply step_of_empty_run
+  intro m hm
+  rw [run_refused w.nst c _ (hm ▸ h)]
+
+/-- **A conflicting redeclaration without force is refused.**  After any history, `declare name version dir`
+(no tag, no force; `dir` exists with its table file in a stack of the path) of a (name, version, flavor) that
+the files of that stack declare with another directory ends with `EupsException` — and by the theorem above
+changes nothing. -/
+theorem C06_conflicting_redeclare_refused (nst : Nat) (dirs : List DirEnt) (tfs : List TFile) (h : List WCmd) (u : User)
+    (a : DeclareArgs) (d : Dir) (o : Decl)
+    (hdir : a.dir = some d) (htag : a.tag = none) (htn : a.table = .dflt) (hstack : a.stack = none)
+    (hforce : a.force = false) (hroot : d.root < nst)
+    (hex : (runHistory (World.init nst dirs tfs) h).dirs.any (fun e => e.dir == d && e.tname == a.name) = true)
+    (hold : (runHistory (World.init nst dirs tfs) h).db.findDecl d.root a.name a.ver a.self = some o)
+    (hdiff : o.dir ≠ d) :
+    (stepG true (runHistory (World.init nst dirs tfs) h) (.run u (.declare a) none)).out = .refused := by
+  have hinv := history_inv nst dirs tfs h
+  have hn : (runHistory (World.init nst dirs tfs) h).nst = nst := history_nst _ h
+  generalize runHistory (World.init nst dirs tfs) h = w at hinv hn hex hold
+  obtain ⟨m, held, hv, hfb, _, hout, _⟩ := step_run_sub hinv u (.declare a)
+  rw [hout]
+  simp only [run]
+  have hde : (⟨w.db, m, w.dirs, [], w.extras, w.tfiles⟩ : Proc).dirExists d = true := by
+    simp only [Proc.dirExists, List.any_eq_true] at hex ⊢
+    obtain ⟨e, he, hk⟩ := hex
+    simp only [Bool.and_eq_true] at hk
+    exact ⟨e, he, hk.1⟩
+  have hres := resolveDeclare_explicit (nst := w.nst) (p := ⟨w.db, m, w.dirs, [], w.extras, w.tfiles⟩) hdir htag htn hstack hde hex
+    (hn ▸ hroot)
+  have hag : AgreeOnN m w.db d.root a.self a.name :=
+    hv d.root (hn ▸ hroot) a.self (hfb d.root (hn ▸ hroot) a.self (by simp [fallbacks, Cmd.self])) a.name
+  have hmem : (⟨w.db, m, w.dirs, [], w.extras, w.tfiles⟩ : Proc).mem = m := rfl
+  have hfind : m.findDecl d.root a.name a.ver a.self = some o := by
+    rw [findDecl_agree hag hinv.dbinv.ku]; exact hold
+  have ho := findDecl_some hfind
+  have hnotfirst : declareTag w.nst a m = none := by
+    unfold declareTag
+    rw [htag]
+    dsimp only
+    have := findProducts_ne_nil (m := m) (nst := w.nst) (self := a.self) (n := a.name) ho.1
+      (by rw [ho.2.1, hn]; exact hroot) ho.2.2.1 ho.2.2.2.2
+    cases hl : findProducts m w.nst a.self a.name none (allStacks w.nst) with
+    | nil => exact absurd hl this
+    | cons _ _ => rfl
+  rw [declare_conflict_refused hres (by rw [hmem]; exact hfind) hforce (by rw [hmem]; exact hnotfirst)
+    (Or.inl hdiff)]
+
+/-- what is on disk besides the database records, as a command finds it: installation directories, extra files,
+table files kept elsewhere (what `Proc.fileContent` and `Proc.tableContent` look at; the view plays no part) -/
+def onDisk (w : World) : Proc := ⟨w.db, Spec.empty, w.dirs, [], w.extras, w.tfiles⟩
+
+/-- **A redeclaration with another table file is refused.**  After any history, `declare name version dir -m path`
+(no tag, no force; `dir` exists in a stack of the path; `path` is a table file kept elsewhere, with content `c`) of a
+(name, version, flavor) that the files of that stack declare with a table file of other content — or with none, or
+with one that is not there any more — ends with `EupsException`, and by `C06_refused_redeclare_is_noop` changes
+nothing.  (A table given as a stream is NOT compared: D39.) -/
+theorem C06_conflicting_table_refused (nst : Nat) (dirs : List DirEnt) (tfs : List TFile) (h : List WCmd) (u : User)
+    (a : DeclareArgs) (d q : Dir) (c : Nat) (o : Decl)
+    (hdir : a.dir = some d) (htag : a.tag = none) (htn : a.table = .path q) (hstack : a.stack = none)
+    (hforce : a.force = false) (hroot : d.root < nst)
+    (hex : (runHistory (World.init nst dirs tfs) h).dirs.any (fun e => e.dir == d) = true)
+    (hq : underUpsDb d.root q = false)
+    (hold : (runHistory (World.init nst dirs tfs) h).db.findDecl d.root a.name a.ver a.self = some o)
+    (hc : (onDisk (runHistory (World.init nst dirs tfs) h)).fileContent q = some c)
+    (hdiff : (onDisk (runHistory (World.init nst dirs tfs) h)).tableContent o ≠ some c) :
+    (stepG true (runHistory (World.init nst dirs tfs) h) (.run u (.declare a) none)).out = .refused := by
+  have hinv := history_inv nst dirs tfs h
+  have hn : (runHistory (World.init nst dirs tfs) h).nst = nst := history_nst _ h
+  generalize runHistory (World.init nst dirs tfs) h = w at hinv hn hex hold hc hdiff
+  obtain ⟨m, held, hv, hfb, _, hout, _⟩ := step_run_sub hinv u (.declare a)
+  rw [hout]
+  simp only [run]
+  have hres := resolveDeclare_explicit_path (nst := w.nst) (p := ⟨w.db, m, w.dirs, [], w.extras, w.tfiles⟩) hdir htag htn hstack
+    hex (hn ▸ hroot) hq hc
+  have hag : AgreeOnN m w.db d.root a.self a.name :=
+    hv d.root (hn ▸ hroot) a.self (hfb d.root (hn ▸ hroot) a.self (by simp [fallbacks, Cmd.self])) a.name
+  have hmem : (⟨w.db, m, w.dirs, [], w.extras, w.tfiles⟩ : Proc).mem = m := rfl
+  have hfind : m.findDecl d.root a.name a.ver a.self = some o := by
+    rw [findDecl_agree hag hinv.dbinv.ku]; exact hold
+  have ho := findDecl_some hfind
+  have hnotfirst : declareTag w.nst a m = none := by
+    unfold declareTag
+    rw [htag]
+    dsimp only
+    have := findProducts_ne_nil (m := m) (nst := w.nst) (self := a.self) (n := a.name) ho.1
+      (by rw [ho.2.1, hn]; exact hroot) ho.2.2.1 ho.2.2.2.2
+    cases hl : findProducts m w.nst a.self a.name none (allStacks w.nst) with
+    | nil => exact absurd hl this
+    | cons _ _ => rfl
+  rw [declare_conflict_refused hres (by rw [hmem]; exact hfind) hforce (by rw [hmem]; exact hnotfirst)
+    (Or.inr ⟨c, rfl, hdiff⟩)]
+
+/-- **Undeclaring a version removes it and every tag on it.**  After any history, when `undeclare` of a
+version (not the tag-only form, not a dry run, not killed) succeeds: the version it acted on — the one given,
+when one is given — was declared in the files of a stack, and afterwards neither that declaration nor any tag
+pointing at it is in the files of that stack. -/
+theorem C06_undeclare_removes_tags (nst : Nat) (dirs : List DirEnt) (tfs : List TFile) (h : List WCmd) (u : User) (a : UndeclareArgs)
+    (hna : a.noaction = false) (hform : a.tag = none ∨ a.versionAndTag = true)
+    (hok : (stepG true (runHistory (World.init nst dirs tfs) h) (.run u (.undeclare a) none)).out = .ok) :
+    ∃ s v, (∀ v', a.ver = some v' → v = v') ∧
+      (runHistory (World.init nst dirs tfs) h).db.hasDecl s a.name v a.self = true ∧
+      (step (runHistory (World.init nst dirs tfs) h) (.run u (.undeclare a) none)).db.hasDecl s a.name v a.self = false ∧
+      ∀ r ∈ (step (runHistory (World.init nst dirs tfs) h) (.run u (.undeclare a) none)).db.tags,
+        ¬ (r.stack = s ∧ r.name = a.name ∧ r.flav = a.self ∧ r.ver = v) := by
+  have hinv := history_inv nst dirs tfs h
+  generalize runHistory (World.init nst dirs tfs) h = w at hinv hok
+  obtain ⟨m, _, hout, hdb⟩ := step_run hinv u (.undeclare a)
+  rw [hout] at hok
+  unfold step
+  rw [hdb]
+  obtain ⟨s, v, h1, h2, h3, h4⟩ := undeclare_ok (nst := w.nst) (a := a) (p := ⟨w.db, m, w.dirs, [], w.extras, w.tfiles⟩) hok hna hform
+  refine ⟨s, v, h1, h2, h3, ?_⟩
+  intro r hr hp
+  have := h4 r hr
+  rw [TagRec.pointsAt_iff.mpr hp] at this
+  cases this
+
+/-- **The first version ever declared of a product becomes current.**  After any history, when `declare`
+without a tag (not a dry run, not killed) of a product of which the files hold no declaration at all — any
+stack, any flavor — succeeds, the version is declared in a stack and `current` names it there. -/
+theorem C06_first_version_current (nst : Nat) (dirs : List DirEnt) (tfs : List TFile) (h : List WCmd) (u : User) (a : DeclareArgs)
+    (htag : a.tag = none) (hna : a.noaction = false)
+    (hfirst : ∀ d ∈ (runHistory (World.init nst dirs tfs) h).db.decls, d.name ≠ a.name)
+    (hok : (stepG true (runHistory (World.init nst dirs tfs) h) (.run u (.declare a) none)).out = .ok) :
+    ∃ s, (step (runHistory (World.init nst dirs tfs) h) (.run u (.declare a) none)).db.tagVer s current a.name a.self
+          = some a.ver ∧
+        (step (runHistory (World.init nst dirs tfs) h) (.run u (.declare a) none)).db.hasDecl s a.name a.ver a.self = true := by
+  have hinv := history_inv nst dirs tfs h
+  generalize runHistory (World.init nst dirs tfs) h = w at hinv hok hfirst
+  obtain ⟨m, _, _, _, hsub, hout, hdb⟩ := step_run_sub hinv u (.declare a)
+  rw [hout] at hok
+  unfold step
+  rw [hdb]
+  have hcur : declareTag w.nst a (⟨w.db, m, w.dirs, [], w.extras, w.tfiles⟩ : Proc).mem = some current := by
+    show declareTag w.nst a m = some current
+    unfold declareTag
+    rw [htag]
+    dsimp only
+    cases hl : findProducts m w.nst a.self a.name none (allStacks w.nst) with
+    | nil => rfl
+    | cons x xs =>
+      exfalso
+      have := mem_findProducts (show x ∈ findProducts m w.nst a.self a.name none (allStacks w.nst) by rw [hl]; simp)
+      exact hfirst x (hsub x this.1) this.2
+  obtain ⟨r, _, h1, h2⟩ := declare_ok_tag (nst := w.nst) (a := a) (p := ⟨w.db, m, w.dirs, [], w.extras, w.tfiles⟩) hok hna hcur
+  exact ⟨r.target, h1, h2⟩
+
+/-- **Assigning a tag makes it name the version, in the stack of the version** (`declare -t`).  After any
+history, when `declare` with tag `t` (not a dry run, not killed) succeeds, the version is declared in a stack
+and `t` names it there — whatever `t` named before in that stack (within a stack a tag names one version:
+`C06_tag_unique_in_stack`). -/
+theorem C06_last_assignment_wins (nst : Nat) (dirs : List DirEnt) (tfs : List TFile) (h : List WCmd) (u : User) (a : DeclareArgs)
+    (t : Tag) (htag : a.tag = some t) (hna : a.noaction = false)
+    (hok : (stepG true (runHistory (World.init nst dirs tfs) h) (.run u (.declare a) none)).out = .ok) :
+    ∃ s, (step (runHistory (World.init nst dirs tfs) h) (.run u (.declare a) none)).db.tagVer s t a.name a.self
+          = some a.ver ∧
+        (step (runHistory (World.init nst dirs tfs) h) (.run u (.declare a) none)).db.hasDecl s a.name a.ver a.self = true := by
+  have hinv := history_inv nst dirs tfs h
+  generalize runHistory (World.init nst dirs tfs) h = w at hinv hok
+  obtain ⟨m, _, hout, hdb⟩ := step_run hinv u (.declare a)
+  rw [hout] at hok
+  unfold step
+  rw [hdb]
+  have ht : declareTag w.nst a (⟨w.db, m, w.dirs, [], w.extras, w.tfiles⟩ : Proc).mem = some t := by
+    show declareTag w.nst a m = some t
+    unfold declareTag; rw [htag]
+  obtain ⟨r, _, h1, h2⟩ := declare_ok_tag (nst := w.nst) (a := a) (p := ⟨w.db, m, w.dirs, [], w.extras, w.tfiles⟩) hok hna ht
+  exact ⟨r.target, h1, h2⟩
+
+/-- the same for a direct `Eups.assignTag` -/
+theorem C06_last_assignment_wins_assignTag (nst : Nat) (dirs : List DirEnt) (tfs : List TFile) (h : List WCmd) (u : User)
+    (f : Flav) (t : Tag) (n : Name) (v : Ver) (st : Option Nat)
+    (hok : (stepG true (runHistory (World.init nst dirs tfs) h) (.run u (.assignTag f t n v st) none)).out = .ok) :
+    ∃ s, (step (runHistory (World.init nst dirs tfs) h) (.run u (.assignTag f t n v st) none)).db.tagVer s t n f = some v ∧
+        (step (runHistory (World.init nst dirs tfs) h) (.run u (.assignTag f t n v st) none)).db.hasDecl s n v f = true := by
+  have hinv := history_inv nst dirs tfs h
+  generalize runHistory (World.init nst dirs tfs) h = w at hinv hok
+  obtain ⟨m, _, hout, hdb⟩ := step_run hinv u (.assignTag f t n v st)
+  rw [hout] at hok
+  unfold step
+  rw [hdb]
+  obtain ⟨s, _, h1, h2⟩ := assignTag_ok (f := f) (t := t) (n := n) (v := v) (stacks := stacksOf w.nst st)
+    (p := ⟨w.db, m, w.dirs, [], w.extras, w.tfiles⟩) hok
+  exact ⟨s, h1, h2⟩
+
+/-- **A tag is one designation on the whole path** (`C06_tag_unique_on_path_partial`; hypotheses: no direct
+`Eups.assignTag` in the history — D32 —, no `declare` killed half way, stack arguments on the path; undeclare,
+unassignTag, remove may be killed anywhere, caches deleted anywhere).  After such a history every (tag, product,
+flavor) is assigned in at most one stack: `declare -t` really *moves* the tag, whichever stacks held it. -/
+theorem C06_tag_unique_on_path_partial (nst : Nat) (hn : 0 < nst) (dirs : List DirEnt) (tfs : List TFile) (h : List WCmd)
+    (hp : ∀ c ∈ h, Plain nst c) :
+    ∀ r ∈ (runHistory (World.init nst dirs tfs) h).db.tags, ∀ q ∈ (runHistory (World.init nst dirs tfs) h).db.tags,
+      r.tag = q.tag → r.name = q.name → r.flav = q.flav → r = q := by
+  intro r hr q hq h1 h2 h3
+  have hs := (history_onePlace nst hn dirs tfs h hp).1 r hr q hq h1 h2 h3
+  exact (dbInv_history true nst dirs tfs h).ku.tag r hr q hq (TagRec.sameKey_iff.mpr ⟨hs, h1, h2, h3⟩)
+
+/-- **Resolving the tag yields the version it was last assigned to** (path-wide; same hypotheses).  After a plain
+history, when `declare` with tag `t` (not a dry run, not killed, stack argument on the path) succeeds, whatever
+stack `findTaggedProduct` answers from over the whole path, it answers the version just declared. -/
+theorem C06_resolves_to_last_assignment_partial (nst : Nat) (hn : 0 < nst) (dirs : List DirEnt) (tfs : List TFile) (h : List WCmd)
+    (hp : ∀ c ∈ h, Plain nst c) (u : User) (a : DeclareArgs) (t : Tag) (htag : a.tag = some t)
+    (hna : a.noaction = false) (hstack : ∀ s, a.stack = some s → s < nst)
+    (hok : (stepG true (runHistory (World.init nst dirs tfs) h) (.run u (.declare a) none)).out = .ok)
+    (d : Decl)
+    (hd : (step (runHistory (World.init nst dirs tfs) h) (.run u (.declare a) none)).db.findTagged (allStacks nst)
+            a.name t a.self = some d) :
+    d.ver = a.ver := by
+  obtain ⟨s, hs, _⟩ := C06_last_assignment_wins nst dirs tfs h u a t htag hna hok
+  have hplain : ∀ c ∈ h ++ [.run u (.declare a) none], Plain nst c := by
+    intro c hc
+    rcases List.mem_append.mp hc with hc | hc
+    · exact hp c hc
+    · simp only [List.mem_singleton] at hc; subst hc; exact ⟨rfl, hstack⟩
+  have huniq := C06_tag_unique_on_path_partial nst hn dirs tfs (h ++ [.run u (.declare a) none]) hplain
+  have hrun : runHistory (World.init nst dirs tfs) (h ++ [.run u (.declare a) none])
+      = step (runHistory (World.init nst dirs tfs) h) (.run u (.declare a) none) := by
+    simp [runHistory, List.foldl_append]
+  rw [hrun] at huniq
+  obtain ⟨r1, hr1, k1⟩ := Spec.tagVer_some hs
+  obtain ⟨r2, hr2, k2⟩ := Spec.tagVer_some (findTagged_tagVer hd)
+  have := huniq r1 hr1 r2 hr2 (k1.2.1.trans k2.2.1.symm) (k1.2.2.1.trans k2.2.2.1.symm)
+    (k1.2.2.2.1.trans k2.2.2.2.1.symm)
+  rw [← k2.2.2.2.2, ← this, k1.2.2.2.2]
+
+/-- **D32 (open).**  Path-wide, "resolving the tag yields the version it was last assigned to" is false for a
+direct `Eups.assignTag`: `declare p 1 -t stable` in stack 0, `declare p 2` in stack 1, `assignTag stable p 2`:
+the tag is now in both stacks and the first stack on the path still answers `1`. -/
+theorem C06_assign_tag_other_stack_witness :
+    let p : Name := [112]; let L : Flav := [76]; let stable : Tag := [115]
+    let dirs : List DirEnt := [⟨⟨0, relDir L p [49]⟩, p⟩, ⟨⟨1, relDir L p [50]⟩, p⟩]
+    let w := runHistory (World.init 2 dirs)
+      [.run 0 (.declare ⟨L, p, [49], some ⟨0, relDir L p [49]⟩, none, .dflt, some stable, false, false, []⟩) none,
+       .run 0 (.declare ⟨L, p, [50], some ⟨1, relDir L p [50]⟩, none, .dflt, none, false, false, []⟩) none,
+       .run 0 (.assignTag L stable p [50] none) none]
+    (w.db.findTagged (allStacks 2) p stable L).map (·.ver) = some [49] ∧
+    w.db.tagVer 0 stable p L = some [49] ∧ w.db.tagVer 1 stable p L = some [50] := by decide
+
+/-- **Refinement: the record files read back as the abstract database**, after every history.
+`runHistoryF` performs the history on version files (one block per flavor, the directory stored relative to
+the stack) and chain files (flavor ↦ version), creating a file with its first block and removing it with its
+last, by what `Database.declare / undeclare / assignTag / unassignTag` do to them (`DbFile.applyF`).  At every
+point: the files are well formed (one file per key, one block per flavor, no empty file), the world reached is
+the one of `runHistory`, and `abs` of the files holds exactly the declarations and tags of its database. -/
+theorem C06_refines (nst : Nat) (dirs : List DirEnt) (tfs : List TFile) (h : List WCmd) :
+    (runHistoryF nst dirs h tfs).2 = runHistory (World.init nst dirs tfs) h ∧
+    WFF (runHistoryF nst dirs h tfs).1 ∧
+    SameContent (DbFile.abs (runHistoryF nst dirs h tfs).1) (runHistory (World.init nst dirs tfs) h).db := by
+  unfold runHistoryF runHistory
+  suffices ∀ (F : FileDb) (w : World), WFF F → SameContent (DbFile.abs F) w.db → CacheInv w →
+      (h.foldl stepF (F, w)).2 = h.foldl step w ∧ WFF (h.foldl stepF (F, w)).1 ∧
+      SameContent (DbFile.abs (h.foldl stepF (F, w)).1) (h.foldl step w).db from
+    this _ _ wff_empty (SameContent.refl _) (cacheInv_init nst dirs tfs)
+  induction h with
+  | nil => intro F w hF hc _; exact ⟨rfl, hF, hc⟩
+  | cons c cs ih =>
+    intro F w hF hc hinv
+    simp only [List.foldl_cons]
+    have hstep : stepF (F, w) c = ((stepG true w c).trace.foldl (fun F e => applyF e F) F, step w c) := rfl
+    rw [hstep]
+    obtain ⟨h1, h2⟩ := foldl_applyF_sim (stepG true w c).trace hF hc hinv.dbinv
+    refine ih _ _ h1 ?_ (step_inv hinv c)
+    unfold step
+    rw [stepG_db_trace w hinv.dbinv c]
+    exact h2
+
+/-- **Reads on the files equal reads on the abstract database**, after every history: `Database.findProduct`
+(is (name, version, flavor) declared in the stack, with which directory and table), the tagged version of a
+chain file, and the listings (`findProducts`, `getTagAssignments`: membership in `abs`). -/
+theorem C06_refines_reads (nst : Nat) (dirs : List DirEnt) (tfs : List TFile) (h : List WCmd) (s : Nat) (n : Name) (v : Ver) (f : Flav)
+    (t : Tag) :
+    DbFile.findProduct (runHistoryF nst dirs h tfs).1 s n v f = (runHistory (World.init nst dirs tfs) h).db.findDecl s n v f ∧
+    (DbFile.abs (runHistoryF nst dirs h tfs).1).tagVer s t n f = (runHistory (World.init nst dirs tfs) h).db.tagVer s t n f ∧
+    (∀ d, d ∈ (DbFile.abs (runHistoryF nst dirs h tfs).1).decls ↔ d ∈ (runHistory (World.init nst dirs tfs) h).db.decls) ∧
+    (∀ r, r ∈ (DbFile.abs (runHistoryF nst dirs h tfs).1).tags ↔ r ∈ (runHistory (World.init nst dirs tfs) h).db.tags) := by
+  obtain ⟨_, hwf, hsame⟩ := C06_refines nst dirs tfs h
+  have hku := (history_inv nst dirs tfs h).dbinv.ku
+  exact ⟨(findProduct_eq hwf s n v f).trans (hsame.findDecl hku s n v f), hsame.tagVer hku s t n f, hsame.1, hsame.2⟩
+
+/-! ### the hypotheses are satisfiable / the statements are not vacuous -/
+
+/-- `declare p 1` in stack 0 then `declare p 2 -t beta`: two declarations and two tags come out, so the
+quantifiers above range over something -/
+example :
+    let p : Name := [112]; let L : Flav := [76]; let beta : Tag := [98]
+    let dirs : List DirEnt := [⟨⟨0, relDir L p [49]⟩, p⟩, ⟨⟨0, relDir L p [50]⟩, p⟩]
+    let w := runHistory (World.init 2 dirs)
+      [.run 0 (.declare ⟨L, p, [49], some ⟨0, relDir L p [49]⟩, none, .dflt, none, false, false, []⟩) none,
+       .run 0 (.declare ⟨L, p, [50], some ⟨0, relDir L p [50]⟩, none, .dflt, some beta, false, false, []⟩) none]
+    (w.db.decls.length, w.db.tags.length) = (2, 2) := by decide
+
+/-- the hypotheses of `C06_conflicting_redeclare_refused`, `C06_refused_redeclare_is_noop`,
+`C06_undeclare_removes_tags`, `C06_first_version_current` and `C06_last_assignment_wins` are met by concrete
+commands: after `declare p 1 <dir1>` (first version: ok), `declare p 1 <dir2>` is refused, `declare p 2 <dir2>
+-t beta` and `undeclare p 1` succeed -/
+example :
+    let p : Name := [112]; let L : Flav := [76]; let beta : Tag := [98]
+    let d1 : Dir := ⟨0, relDir L p [49]⟩; let d2 : Dir := ⟨0, relDir L p [50]⟩
+    let dirs : List DirEnt := [⟨d1, p⟩, ⟨d2, p⟩]
+    let first : WCmd := .run 0 (.declare ⟨L, p, [49], some d1, none, .dflt, none, false, false, []⟩) none
+    let w := runHistory (World.init 2 dirs) [first]
+    (stepG true (World.init 2 dirs) first).out = .ok ∧
+    (stepG true w (.run 0 (.declare ⟨L, p, [49], some d2, none, .dflt, none, false, false, []⟩) none)).out = .refused ∧
+    w.db.findDecl 0 p [49] L = some ⟨0, p, [49], L, d1, .default⟩ ∧
+    (stepG true w (.run 0 (.declare ⟨L, p, [50], some d2, none, .dflt, some beta, false, false, []⟩) none)).out = .ok ∧
+    (stepG true w (.run 0 (.undeclare ⟨L, p, some [49], none, none, false, false, false, none⟩) none)).out = .ok := by decide
+
+/-- two flavors share one version file and one chain file; undeclaring one flavor leaves the other's blocks -/
+example :
+    let p : Name := [112]; let L : Flav := [76]
+    let dirs : List DirEnt := [⟨⟨0, relDir L p [49]⟩, p⟩, ⟨⟨0, relDir generic p [49]⟩, p⟩]
+    let h : List WCmd :=
+      [.run 0 (.declare ⟨L, p, [49], some ⟨0, relDir L p [49]⟩, none, .dflt, none, false, false, []⟩) none,
+       .run 0 (.declare ⟨generic, p, [49], some ⟨0, relDir generic p [49]⟩, none, .dflt, none, false, false, []⟩) none]
+    let F := (runHistoryF 1 dirs h).1
+    let F' := (runHistoryF 1 dirs (h ++ [.run 0 (.undeclare ⟨L, p, some [49], none, none, false, false, false, none⟩) none])).1
+    (F.vfiles.map (fun x => x.recs.map (·.flav)), F.cfiles.map (fun x => x.recs.map (·.flav)),
+     F'.vfiles.map (fun x => x.recs.map (·.flav)), F'.cfiles.map (fun x => x.recs.map (·.flav)))
+      = ([[L, generic]], [[L, generic]], [[generic]], [[generic]]) := by decide
+
+/-- the hypotheses of `C06_conflicting_table_refused` are met, and a table given as a stream escapes the comparison
+(D39): after `declare p 1 <dir1>` (the table of the directory, content 0), `declare p 1 <dir1> -m t` with a table file
+`t` of content 1 kept elsewhere is refused; the same table given as a stream is answered ok, leaves the record as it
+was and saves the stream as an extra file; a streamed table IS compared — as an external file — once the extra
+directory exists -/
+theorem C06_streamed_table_not_compared_witness :
+    let p : Name := [112]; let L : Flav := [76]
+    let d1 : Dir := ⟨0, relDir L p [49]⟩
+    let t : Dir := ⟨0, [116]⟩
+    let dirs : List DirEnt := [⟨d1, p⟩]
+    let w := runHistory (World.init 1 dirs [⟨t, 1⟩]) [.run 1 (.declare ⟨L, p, [49], some d1, none, .dflt, none, false, false, []⟩) none]
+    let byPath := stepG true w (.run 1 (.declare ⟨L, p, [49], some d1, none, .path t, none, false, false, []⟩) none)
+    let byStream := stepG true w (.run 1 (.declare ⟨L, p, [49], some d1, none, .stream 1, none, false, false, []⟩) none)
+    let again := stepG true byStream.w (.run 1 (.declare ⟨L, p, [49], some d1, none, .stream 2, none, false, false, []⟩) none)
+    ((onDisk w).fileContent t = some 1 ∧ (onDisk w).tableContent ⟨0, p, [49], L, d1, .default⟩ = some 0 ∧
+      underUpsDb 0 t = false ∧ byPath.out = .refused) ∧
+    (byStream.out = .ok ∧ byStream.w.db = w.db ∧ byStream.w.extras = [⟨0, L, p, [49], tablePathOf p, 1⟩]) ∧
+    again.out = .refused := by decide
+
+/-- **D38 (open).**  `declare p 1 <dir1> -M` (the table as a stream, content 1: interned), then `declare p 2 <dir2> -m
+<the interned table of p 1>`: the path lies below `ups_db` of the stack, so it is taken for the interned table of p 2
+itself; the command answers ok, the files declare p 2 with an interned table, and there is no such file — while the
+file that was named exists and has content 1. -/
+theorem C06_interned_table_dangling_witness :
+    let p : Name := [112]; let L : Flav := [76]
+    let d1 : Dir := ⟨0, relDir L p [49]⟩; let d2 : Dir := ⟨0, relDir L p [50]⟩
+    let dirs : List DirEnt := [⟨d1, p⟩, ⟨d2, p⟩]
+    let w := runHistory (World.init 1 dirs) [.run 1 (.declare ⟨L, p, [49], some d1, none, .stream 1, none, false, false, []⟩) none]
+    let r := stepG true w (.run 1 (.declare ⟨L, p, [50], some d2, none, .path (internedLoc 0 L p [49]), none, false, false, []⟩) none)
+    (onDisk w).fileContent (internedLoc 0 L p [49]) = some 1 ∧ r.out = .ok ∧
+    r.w.db.findDecl 0 p [50] L = some ⟨0, p, [50], L, d2, .interned⟩ ∧
+    (onDisk r.w).tableContent ⟨0, p, [50], L, d2, .interned⟩ = none := by decide
+
+/-- **D44 (open).**  The outcome of a command can depend on the state of the cache.  `declare p 2` for Linux and for
+generic; the environment says `p 2 -f Linux` is set up in stack 0; a generic process undeclares `p 2`.  With its cache
+files in place the process reads the generic flavor only, does not find the set-up Linux version and undeclares; with
+the generic cache file deleted the stack is rebuilt from the database, holds every flavor, the set-up version is
+found and the command is refused — the database files being the same in both cases. -/
+theorem C06_setup_foreign_flavor_cache_dependent_witness :
+    let p : Name := [112]; let L : Flav := [76]
+    let dL : Dir := ⟨0, relDir L p [50]⟩; let dG : Dir := ⟨0, relDir generic p [50]⟩
+    let dirs : List DirEnt := [⟨dL, p⟩, ⟨dG, p⟩]
+    let w := runHistory (World.init 1 dirs)
+      [.run 1 (.declare ⟨L, p, [50], some dL, none, .dflt, none, false, false, []⟩) none,
+       .run 1 (.declare ⟨generic, p, [50], some dG, none, .dflt, none, false, false, []⟩) none]
+    let w' := step w (.rmCache 1 0 generic)
+    let cmd : WCmd := .run 1 (.undeclare ⟨generic, p, some [50], none, none, false, false, false, some ([50], L, 0)⟩) none
+    w'.db = w.db ∧ (stepG true w cmd).out = .ok ∧ (stepG true w' cmd).out = .refused := by decide
+
+/-- a plain history in which a tag really moves between stacks: `declare p 1 <dir in stack 0> -t beta`, then
+`declare p 2 <dir in stack 1> -t beta`: afterwards `beta` is in stack 1 only.  Killed right after its
+`Database.declare` (which writes the tag of the new version), the second command leaves `beta` in both stacks:
+the hypothesis "no `declare` killed half way" of `C06_tag_unique_on_path_partial` is needed. -/
+theorem C06_tag_unique_on_path_crash_witness :
+    let p : Name := [112]; let L : Flav := [76]; let beta : Tag := [98]
+    let dirs : List DirEnt := [⟨⟨0, relDir L p [49]⟩, p⟩, ⟨⟨1, relDir L p [50]⟩, p⟩]
+    let c1 : Cmd := .declare ⟨L, p, [49], some ⟨0, relDir L p [49]⟩, none, .dflt, some beta, false, false, []⟩
+    let c2 : Cmd := .declare ⟨L, p, [50], some ⟨1, relDir L p [50]⟩, none, .dflt, some beta, false, false, []⟩
+    let whole := runHistory (World.init 2 dirs) [.run 0 c1 none, .run 0 c2 none]
+    let killed := runHistory (World.init 2 dirs) [.run 0 c1 none, .run 0 c2 (some 1)]
+    (whole.db.tags.filter (fun r => r.tag == beta)).map (·.stack) = [1] ∧
+    ((killed.db.tags.filter (fun r => r.tag == beta)).map (·.stack)).length = 2 ∧
+    Plain 2 (.run 0 c1 none) ∧ Plain 2 (.run 0 c2 none) := by
+  refine ⟨by decide, by decide, ⟨rfl, ?_⟩, ⟨rfl, ?_⟩⟩ <;> intro s hs <;> cases hs
+
+end EupsModel.C06
